@@ -326,7 +326,15 @@ impl Font {
                 }
                 Ok(Some(widths))
             },
-            _ => Ok(None)
+            // the other simple fonts (Type3, MMType1) keep their entries as a plain dictionary
+            FontData::Other(ref dict) => match (dict.get("FirstChar"), dict.get("Widths")) {
+                (Some(first), Some(widths)) => Ok(Some(Widths {
+                    default: 0.0,
+                    first_char: usize::from_primitive(first.clone(), resolve)?,
+                    values: Vec::<f32>::from_primitive(widths.clone(), resolve)?
+                })),
+                _ => Ok(None)
+            }
         }
     }
     pub fn to_unicode(&self, resolve: &impl Resolve) -> Option<Result<ToUnicodeMap>> {
